@@ -107,6 +107,7 @@ def cellStr : Option Bytes → String
 def rowsStageStr (rs : RowsStage) : String :=
   match rs.dm with
   | .err k => "err " ++ k
+  | .panic k => "MODEL-PANIC " ++ k
   | .ok d =>
     let src := match d.source with
       | .cached => "cached" | .mockEmpty => "empty" | .parsed => "parsed"
@@ -201,7 +202,8 @@ def runFrame (w : List String) (impl : String) : String :=
             if hasSub k "unmodelled" then echoUnmodelled impl
             else match parseExt h.flags { buf := body } with
               | (.ok ext, _) => hdrStr h ++ ztok ++ " " ++ extStr ext ++ " err " ++ k
-              | (.err _, _) => hdrStr h ++ ztok ++ " err " ++ k
+              | (_, _) => hdrStr h ++ ztok ++ " err " ++ k
+          | .panic k => "MODEL-PANIC " ++ k
           | .ok d =>
             let line := hdrStr h ++ ztok ++ " " ++ extStr d.ext ++ " " ++ respStr f d.resp d.rowsStage
             if hasSub line "unmodelled" then echoUnmodelled impl else line
@@ -212,6 +214,7 @@ def primOut {α : Type} (show_ : α → String) (r : Outcome α × St) : String 
   match r with
   | (.ok a, s) => "ok " ++ show_ a ++ " rest=" ++ hx s.buf
   | (.err k, _) => "err " ++ k
+  | (.panic k, _) => "MODEL-PANIC " ++ k
 
 def runPrim (name : String) (bs : Bytes) : String :=
   match name with
